@@ -368,7 +368,7 @@ def gen_handoff(rng, tier):
     out = []
     for i in range(n):
         case = progs.gen_case(rng, n_dests=1, fault=0.0, registry_rate=0.0, p_fault_ser=0.0, p_typed=0.1, p_handoff=0.35,
-                              p_raise=0.15, depth=4 if tier == "quick" or i % 3 else 6, file_dest=True)
+                              p_raise=0.15, depth=4 if tier == "quick" or i % 3 else 6, file_dest=True, p_reserved=0.2)
         case["registry"] = []
         case["shuffle_seed"] = rng.randrange(1 << 30)
         out.append(case)
@@ -457,6 +457,11 @@ def oracle_forked(case, obs):
         if c is None:
             return "forked child %d produced no result" % i
         groups.append(("forked child %d" % i, c))
+    want = {"parent before the forks": 3 * case["before"], "parent after the forks": 3 * case["tasks"]}
+    for name, uuids in groups:
+        n = want.get(name, 3 * case["tasks"])
+        if len(uuids) != n:
+            return "%s: %d messages logged, %d reached the destination registered before the fork" % (name, n, len(uuids))
     seen = {}
     for name, uuids in groups:
         # each task of `work` emits start+end (same uuid) and one stand-alone message (its own uuid)
